@@ -521,6 +521,8 @@ def value_keyed_factor_rule(rc, targets):
                 what = f"set display of factors `{norm(n, 90)}`"
             elif isinstance(n, ast.Call) and isinstance(n.func, ast.Name) and n.func.id in ("set", "frozenset") and n.args and ft.is_collection(n.args[0]):
                 what = f"`{norm(n, 90)}` builds a set of factors"
+            elif isinstance(n, ast.Call) and call_name(n) in ("fromkeys", "Counter", "unique") and n.args and ft.is_collection(n.args[0]):
+                what = f"`{norm(n, 90)}` keys a mapping by the factors (de-duplication by value)"
             elif isinstance(n, ast.Call) and call_name(n) == "add" and isinstance(n.func, ast.Attribute) and n.args and ft.is_factor(n.args[0]):
                 base = n.func.value
                 while isinstance(base, ast.Subscript):
@@ -948,3 +950,66 @@ def preprocess_rule(rc):
                     construct="preprocess_data lossy cast")
     if n < 2:
         raise AnalysisError(f"preprocess_data: expected the integer and object column conversions, found {n} column store(s)")
+
+
+# ------------------------------------------------------------------------------------------------
+def name_first_rule(rc, files):
+    """A state handed to an accessor of the factor classes (get_value, set_value, get_state_no, …) is a state NAME.  Wherever a function looks such a value up in
+    `name_to_no`, every other use of the same value as a number (appended to an index, returned, used as a subscript) sits in the `except KeyError` handler of that
+    lookup — the documented "number accepted when it is not a name" fallback — or on the path where the object has no state names.  A use on any other path reads
+    a name as a number: with state names [1, 2, 3] or [2, 0, 1] the wrong cell is read or written."""
+    repo = rc.repo
+    n_lookup = 0
+    for f in repo.all_functions():
+        if f.file not in files:
+            continue
+        lookups = []
+        for n in ast.walk(f.node):
+            if isinstance(n, ast.Subscript) and isinstance(n.ctx, ast.Load) and isinstance(n.value, ast.Subscript) and isinstance(n.value.value, ast.Attribute) and n.value.value.attr == "name_to_no":
+                lookups.append(n)
+        if not lookups:
+            continue
+        for S in sorted({norm(n.slice) for n in lookups}):
+            n_lookup += 1
+            mine = [n for n in lookups if norm(n.slice) == S]
+            inside_lookup = {id(x) for n in mine for x in ast.walk(n)}
+            for n in ast.walk(f.node):
+                if not (isinstance(n, (ast.Name, ast.Subscript, ast.Attribute)) and isinstance(getattr(n, "ctx", None), ast.Load) and norm(n) == S) or id(n) in inside_lookup:
+                    continue
+                # classify the occurrence by its ancestors
+                par, child, kind, exempt = getattr(n, "_parent", None), n, None, False
+                while par is not None and par is not f.node:
+                    if isinstance(par, (ast.If, ast.IfExp, ast.While)) and child is par.test:
+                        exempt = True   # part of a condition
+                    if isinstance(par, (ast.Raise, ast.JoinedStr, ast.Assert)):
+                        exempt = True
+                    if isinstance(par, ast.Call) and call_name(par) in ("isinstance", "info", "warning", "debug", "error", "type", "str", "repr", "len", "hash"):
+                        exempt = True
+                    if isinstance(par, ast.Compare):
+                        exempt = True
+                    if isinstance(par, ast.ExceptHandler):
+                        tr = getattr(par, "_parent", None)
+                        if isinstance(tr, ast.Try) and any(id(x) in {id(m) for m in mine} for st in tr.body for x in ast.walk(st)):
+                            exempt = True   # the documented fallback: the name lookup failed
+                    if isinstance(par, ast.If) and norm(par.test) in ("self.state_names",) and any(child is x for x in par.orelse):
+                        exempt = True   # the object has no state names
+                    if isinstance(par, ast.If) and isinstance(par.test, ast.UnaryOp) and isinstance(par.test.op, ast.Not) and norm(par.test.operand) == "self.state_names" and any(child is x for x in par.body):
+                        exempt = True
+                    if kind is None:
+                        if isinstance(par, ast.Return):
+                            kind = "returned"
+                        elif isinstance(par, ast.Call) and call_name(par) in ("append", "extend", "insert"):
+                            kind = "appended to an index"
+                        elif isinstance(par, ast.Subscript) and child is par.slice:
+                            kind = "used as a subscript"
+                        elif isinstance(par, (ast.Tuple, ast.List)) and isinstance(getattr(par, "_parent", None), (ast.Return, ast.Call, ast.Subscript)):
+                            kind = "put into an index"
+                    child, par = par, getattr(par, "_parent", None)
+                if kind is None or exempt:
+                    continue
+                rc.fail(f, n, f"{f.qual}: the caller's state `{S}` is {kind} as a NUMBER on a path where it was not (or not yet) looked up as a name — only the KeyError handler "
+                        "of the `name_to_no` lookup may fall back to the raw value; with state names such as [1, 2, 3] or [2, 0, 1] a name is read as a position",
+                        construct=f"{f.qual} state {S} used as number before the name lookup")
+            rc.ob(f"{f.file}:{f.qual}: state `{S}` is looked up by name; raw uses only in the KeyError fallback / without state names")
+    if n_lookup < 3:
+        raise AnalysisError(f"name-first rule: expected the name lookups of get_value, set_value and get_state_no, found {n_lookup}")
